@@ -321,7 +321,20 @@ pub fn synctest(property: &str, seed: u64, faulty: bool, invalid: bool) -> Plan 
             }
         }
     }
-    let perturb = if faulty { vec![Perturb { node: 0, frame: c.range(&[7], 1, (frames as u64).saturating_sub(cd as u64 + 8).max(1)) as i32, mode: PerturbMode::Nondet }] } else { Vec::new() };
+    let perturb = if faulty {
+        if c.chance(&[13], 500_000) {
+            // a one-off glitch: only the k-th simulation of the frame is wrong (frame late enough for k
+            // simulations to happen). k >= 2: a glitch in the first, live simulation alone is rolled back
+            // and re-simulated by the next call before the resulting state is ever saved, so no
+            // checksum can see it - that case is outside what a sync test can flag
+            let k = c.range(&[14], 2, (cd as u64).max(2)) as u32;
+            vec![Perturb { node: 0, frame: c.range(&[7], cd as u64 + 2, (frames as u64).saturating_sub(2 * cd as u64 + 8).max(cd as u64 + 2)) as i32, mode: PerturbMode::NondetOnce(k) }]
+        } else {
+            vec![Perturb { node: 0, frame: c.range(&[7], 1, (frames as u64).saturating_sub(cd as u64 + 8).max(1)) as i32, mode: PerturbMode::Nondet }]
+        }
+    } else {
+        Vec::new()
+    };
     Plan {
         property: property.to_owned(),
         scenario: if invalid { "synctest-invalid" } else if faulty { "synctest-nondeterministic" } else { "synctest-deterministic" }.to_owned(),
